@@ -1,6 +1,6 @@
 //! Dewey / Pattern / PkgName operations.
 use crate::util::*;
-use pkgsrc::{Dewey, Pattern, PatternError};
+use pkgsrc::{Dewey, Pattern, PatternError, PkgName};
 
 pub fn run(op: &str, args: &[&str]) -> Option<String> {
     Some(match (op, args) {
@@ -22,6 +22,28 @@ pub fn run(op: &str, args: &[&str]) -> Option<String> {
             Ok(d) => tf(d.matches(&text(name))),
             Err(_) => "E".into(),
         },
+        ("pat.best", [p, a, b]) => match Pattern::new(&text(p)) {
+            Ok(pt) => {
+                let (a, b) = (text(a), text(b));
+                match pt.best_match(&a, &b) {
+                    None => "N".into(),
+                    Some(r) => format!("S:{}", show_text(r)),
+                }
+            }
+            Err(_) => "E".into(),
+        },
+        ("pkgname", [s]) => {
+            let pn = PkgName::new(&text(s));
+            format!(
+                "{}|{}|{}",
+                show_text(pn.pkgbase()),
+                show_text(pn.pkgversion()),
+                match pn.pkgrevision() {
+                    None => "none".to_string(),
+                    Some(z) => z.to_string(),
+                }
+            )
+        }
         _ => return None,
     })
 }
